@@ -142,12 +142,17 @@ fn relations(tier: Tier, ellipsoids: &[String]) -> Vec<Relation> {
                 let without = strip(&base, &[lon_key]);
                 let with = format!("{without} {lon_key}={l}");
                 // evaluate around the new centre: shift the lattice accordingly
-                let shifted: Vec<C4> = inputs.iter().map(|t| [t[0] - p.lon_c.to_radians() + f64::to_radians(l), t[1], t[2], t[3]]).collect();
+                // (longitudes are given within (-180, 180], as a user would: next to the antimeridian the raw difference
+                // lon - lon_0 then is far outside that range. Not for merc, which is linear in the longitude and
+                // documented here as not wrapping it: DESIGN section 4)
+                let wrap = p.op != "merc" && p.op != "webmerc";
+                let w = move |lon: f64| if wrap { crate::geo::wrap180(lon.to_degrees()).to_radians() } else { lon };
+                let shifted: Vec<C4> = inputs.iter().map(|t| [w(t[0] - p.lon_c.to_radians() + f64::to_radians(l)), t[1], t[2], t[3]]).collect();
                 v.push(Relation {
                     key: format!("{} [{}]: {lon_key} (degrees) is equivalent to subtracting it from the longitude", p.op, p.aspect),
                     def_a: with,
                     def_b: format!("{without} {lon_key}=0"),
-                    map_in: Box::new(move |t| [t[0] - f64::to_radians(l), t[1], t[2], t[3]]),
+                    map_in: Box::new(move |t| [w(t[0] - f64::to_radians(l)), t[1], t[2], t[3]]),
                     map_out: id(),
                     inputs: shifted,
                     tol_abs: tol * 10.,
